@@ -222,3 +222,8 @@ Print Assumptions C18_check_legacy_syntax_safe.
 Theorem C18_recursion_depth_le_nesting : forall sel t, call_depth sel t <= ty_depth t.
 Proof. exact Proofs.call_depth_le_ty_depth. Qed.
 Print Assumptions C18_recursion_depth_le_nesting.
+
+(** from_str.rs:80 `variants[0]` under the condition `variants.len() == 1` as found in the source *)
+Theorem C18_from_str_index0_safe : forall n, all_ok (from_str_index0 n) = true.
+Proof. exact Proofs.from_str_index0_safe. Qed.
+Print Assumptions C18_from_str_index0_safe.
